@@ -25,11 +25,18 @@ def dotted(node):
     while isinstance(node, ast.Attribute):
         parts.append(node.attr)
         node = node.value
-    if isinstance(node, ast.Subscript) and isinstance(node.slice, ast.Constant) and isinstance(node.slice.value, int):
+    if isinstance(node, ast.Subscript) and ((isinstance(node.slice, ast.Constant) and isinstance(node.slice.value, int)) or isinstance(node.slice, ast.Name)):
         inner = dotted(node.value)
         if inner is None:
             return None
-        parts.append(f"{inner}_{node.slice.value}")
+        idx = node.slice.value if isinstance(node.slice, ast.Constant) else node.slice.id
+        parts.append(f"{inner}_{idx}")
+        return "_".join(reversed(parts))
+    if isinstance(node, ast.Call) and not node.args and not node.keywords:
+        inner = dotted(node.func)
+        if inner is None:
+            return None
+        parts.append(inner + "_")
         return "_".join(reversed(parts))
     if not isinstance(node, ast.Name):
         return None
